@@ -1517,7 +1517,9 @@ class sptensor:
         # (mode n) x (other modes) matrix; squeeze() would also drop a singleton
         # mode n (or a singleton product of the other modes)
         mutatable_sptensor = reshaped.reshape(reshaped.shape[:2])
-        tnt = mutatable_sptensor.spmatrix().transpose()
+        # Double precision before the product: ARPACK rejects an integer matrix and the
+        # Gram matrix of narrow integer / float32 values is formed in that type
+        tnt = mutatable_sptensor.spmatrix().transpose().astype(np.float64)
         y = tnt.transpose().dot(tnt)
         if r < y.shape[0] - 1:
             _, v = scipy.sparse.linalg.eigs(y, r)
